@@ -966,6 +966,15 @@ class BlockwiseRequest(BaseUnicastRequest, interfaces.Request):
                         "2.31 Continue without Block1 option"
                     )
                 if blockresponse.code.is_successful() and current_block1.opt.block1:
+                    if current_block1.opt.block1.more:
+                        # Block1 is a critical option: a server that does not
+                        # know it answers 4.02, one that does echoes it. The
+                        # server has seen only a part of the body; letting
+                        # this slip through would report the truncated upload
+                        # as an over-all successful operation.
+                        raise error.UnexpectedBlock1Option(
+                            "Successful response without Block1 option before the end of the body"
+                        )
                     log.warning(
                         "Block1 option completely ignored by server, assuming it knows what it is doing."
                     )
